@@ -166,7 +166,8 @@ Definition denote_ho (keys : Z) (l : text) : option hobj :=
           if Z.testbit ty 7 then
             match split_on 58 params with
             | [en; ss; ads; cs; vol; file] =>
-                match parse_dec en, parse_int ss, parse_int ads, parse_int cs, parse_int vol with
+                match parse_dec (strip en), parse_int (strip ss), parse_int (strip ads), parse_int (strip cs),
+                      parse_int (strip vol) with
                 | Some e, Some ss, Some ads, Some cs, Some vol =>
                     Some (HHold (mkNote o (column_of x keys) (Qred (e - o)) hs ss ads cs vol file))
                 | _, _, _, _, _ => None end
@@ -174,7 +175,7 @@ Definition denote_ho (keys : Z) (l : text) : option hobj :=
           else if Z.testbit ty 0 then
             match split_on 58 params with
             | [ss; ads; cs; vol; file] =>
-                match parse_int ss, parse_int ads, parse_int cs, parse_int vol with
+                match parse_int (strip ss), parse_int (strip ads), parse_int (strip cs), parse_int (strip vol) with
                 | Some ss, Some ads, Some cs, Some vol =>
                     Some (HHit (mkNote o (column_of x keys) 0 hs ss ads cs vol file))
                 | _, _, _, _ => None end
